@@ -1,2 +1,4 @@
+import Props.C02
+import Props.C03
 import Props.C04
 import Props.C06
